@@ -16,10 +16,31 @@ var flatItemFields = []string{"Actor", "Object", "Target", "Result", "Origin", "
 var flatListFields = []string{"To", "Bto", "CC", "BCC", "Audience"}
 
 // item tokens for flattened positions
-var flatTokens = []string{"iri", "obj", "obj-noid", "link", "link-noid", "actor", "objv", "nil", "activity", "col", "list"}
+var flatTokens = func() []string {
+	t := []string{"iri", "obj", "obj-noid", "link", "link-noid", "actor", "objv", "nil", "activity", "col", "list"}
+	// an embedded value of every non-collection object kind, pointer and value form
+	for _, k := range vmodel.Kinds {
+		if k.Fam == "collection" || k.Fam == "link" {
+			continue
+		}
+		t = append(t, "k:"+k.Name, "kv:"+k.Name)
+	}
+	return t
+}()
 
 func flatItem(tok string, n int) vocab.Item {
 	id := vocab.IRI(fmt.Sprintf("https://example.com/flat/%s/%d", tok, n))
+	if strings.HasPrefix(tok, "k:") || strings.HasPrefix(tok, "kv:") {
+		k := vmodel.Kinds[vmodel.KindIndex(tok[strings.IndexByte(tok, ':')+1:])]
+		p := reflect.ValueOf(k.New())
+		p.Elem().FieldByName("ID").Set(reflect.ValueOf(vocab.IRI(fmt.Sprintf("https://example.com/flat/%s/%d", k.Name, n))))
+		p.Elem().FieldByName("Type").Set(reflect.ValueOf(vocab.ActivityVocabularyType(k.SpecificType())))
+		p.Elem().FieldByName("Summary").Set(reflect.ValueOf(vocab.NaturalLanguageValues{{Ref: vocab.NilLangRef, Value: vocab.Content("embedded " + k.Name)}}))
+		if strings.HasPrefix(tok, "kv:") {
+			return p.Elem().Interface().(vocab.Item)
+		}
+		return p.Interface().(vocab.Item)
+	}
 	switch tok {
 	case "iri":
 		return id
@@ -391,7 +412,22 @@ var flatTargets = func() []flatTarget {
 // list arrangements: all sequences of length <= 4 over these tokens
 var flatListTokens = []string{"objA", "iriA", "objB", "noid", "nil", "link", "iriC"}
 
+// wider token set for the random layer: every object kind as a list member too
+var flatListTokensWide = func() []string {
+	t := append([]string{}, flatListTokens...)
+	for _, k := range vmodel.Kinds {
+		if k.Fam == "collection" || k.Fam == "link" {
+			continue
+		}
+		t = append(t, "k:"+k.Name)
+	}
+	return t
+}()
+
 func flatListItem(tok string) vocab.Item {
+	if strings.HasPrefix(tok, "k:") {
+		return flatItem(tok, 7)
+	}
 	switch tok {
 	case "objA":
 		return &vocab.Actor{ID: "https://example.com/flat/A", Type: vocab.PersonType}
@@ -437,7 +473,7 @@ func init() {
 	Register(&Prop{
 		ID: "C16",
 		Rule: "model: in actor, object, target, result, origin, instrument, attributedTo, replies, likes, shares every embedded non-collection object with an id becomes that id; IRIs, links (with or without id) and id-less objects stay; in to/bto/cc/bcc/audience likewise (the result may also be the de-duplication of the model, nothing else); no IRI may appear that was not in the original; every other property unchanged; flatten twice = once. " +
-			"Exhaustive: 9 kinds x {specific, generic, untyped} type names x every flattened single position x 11 item shapes x {dispatching FlattenProperties, typed Flatten*Properties}; all list arrangements of length <= 4 over {object A, IRI A, object B, id-less object, nil, link, IRI C} in each of the five lists; random combinations; distinct = the case; non-trivial = all",
+			"Exhaustive: 9 kinds x {specific, generic, untyped} type names x every flattened single position x 30+ item shapes (IRI, objects with and without id, links, value forms, every non-collection object kind in pointer and value form, collections, lists) x {dispatching FlattenProperties, typed Flatten*Properties}; all list arrangements of length <= 4 over {object A, IRI A, object B, id-less object, nil, link, IRI C} in each of the five lists; random combinations; distinct = the case; non-trivial = all",
 		Layers: func(tier string) []Layer {
 			return []Layer{
 				{Name: "single-positions", N: len(flatTargets) * len(flatItemFields) * len(flatTokens) * 2, Exhaustive: true, Run: func(c *Ctx, idx int) {
@@ -492,7 +528,7 @@ func init() {
 							n := 1 + c.R.Intn(6)
 							var toks []string
 							for i := 0; i < n; i++ {
-								t := flatListTokens[c.R.Intn(nt)]
+								t := flatListTokensWide[c.R.Intn(len(flatListTokensWide))]
 								toks = append(toks, t)
 								fc.Lists[f] = append(fc.Lists[f], flatListItem(t))
 							}
